@@ -435,6 +435,7 @@ func (e *Env) ident(name string) Term {
 	}
 	// zero-ary prelude function / constant
 	if sig, ok := vc.P.prelude.funs[name]; ok && len(sig.args) == 0 {
+		vc.P.prelude.use(vc, name)
 		return Term{S: name, Sort: sig.res}
 	}
 	e.fail("unknown identifier %q", name)
@@ -666,6 +667,20 @@ func (e *Env) call(x *ECall) Term {
 				// a method with a value receiver of another package: (pkg.Type).Method
 				sp, ok = vc.P.spec.Funcs["("+recvName+")."+x.Fun]
 			}
+			if !ok {
+				// an interface named without its package: accepted when exactly one contract matches
+				var hit *FuncSpec
+				n := 0
+				for k, c := range vc.P.spec.Funcs {
+					if strings.HasSuffix(k, "."+recvName+"."+x.Fun) && c.PureConst {
+						hit = c
+						n++
+					}
+				}
+				if n == 1 {
+					sp, ok = hit, true
+				}
+			}
 			if ok && sp.PureConst {
 				var as []Term
 				for _, a := range x.Args {
@@ -818,6 +833,18 @@ func (e *Env) call(x *ECall) Term {
 	case "sref":
 		a := e.value(e.tr(x.Args[0]))
 		return Term{S: sx("sl_ref", a.S), Sort: "Int"}
+	case "soff":
+		a := e.value(e.tr(x.Args[0]))
+		return Term{S: sx("sl_off", a.S), Sort: "Int"}
+	case "backing":
+		// backing(b): the whole backing array of slice b as a value (index = offset + position)
+		a := e.value(e.tr(x.Args[0]))
+		st, ok := types.Unalias(a.T).Underlying().(*types.Slice)
+		if a.Sort != "Slice" || !ok {
+			e.fail("backing() needs a slice")
+		}
+		name, sortName := vc.elemVar(st.Elem())
+		return Term{S: sx("select", vc.get(e.st, name, sortName), sx("sl_ref", a.S)), Sort: "(Array Int " + vc.ss().sortOf(st.Elem()) + ")"}
 	case "fn":
 		// fn("name"): the function constant of a named function or function literal
 		name, ok := x.Args[0].(*EStr)
